@@ -168,7 +168,7 @@ def rule_flatten(ctx):
         if not g:
             continue
         ins = g[-1][0][1]
-        for ndim, n, ii, insert in [(nd, nn, i, k) for nd in (3, 4) for nn in (1, 2) for i in range(0, nd - nn + 1) for k in (None, 0, 1, 2, 3)]:
+        for ndim, n, ii, insert in [(nd, nn, i, k) for nd in (3, 4) for nn in (1, 2) for i in range(0, nd - nn + 1) for k in (None, 0, 1, 2, 3, -1, -2, -5)]:
             atoms = {INS: insert, II: ii, ('attr', SELF, 'ndim'): ndim, NLEN: n}
             feas = True
             for a, pol in p.guards:
@@ -182,10 +182,16 @@ def rule_flatten(ctx):
                     r = int_eval(a, atoms)
                     if r is not None and bool(r) != pol:
                         feas = False
+                elif a[0] == 'cmp' and a[1] in ('<', '<=', '==', '!=') and ((T.contains(a, INS) and insert is not None) or (T.contains(a, II) and not T.contains(a, INS))) \
+                        and not any(x[0] in ('sub', 'tuple') and x != II[2][0] for x in T.subterms(a) if x[0] in ('sub', 'tuple') and not T.contains(II, x)):
+                    r = bool_eval(a, atoms)
+                    if r is not None and r != pol:
+                        feas = False
             if not feas:
                 continue
             got = int_eval(ins, atoms)
-            want = min(ii if insert is None else insert, ndim - n)
+            # (a negative position counts from the end of the other dimensions, as list.insert does; it must neither loop nor wrap)
+            want = min(ii if insert is None else insert if insert >= 0 else max(insert + ndim - n, 0), ndim - n)
             nins += 1
             if got is None:
                 ctx.undecide('R3', 'flatten: insertion point %s not evaluable' % T.show(ins)[:80])
@@ -198,7 +204,8 @@ def rule_flatten(ctx):
     if bad_ins and bad_ins != 'undecided':
         ndim, n, ii, insert, got, want = bad_ins
         ctx.violated('R3', fi, 'flatten insertion point', 'for a %d-d array, %d grouped dimension(s) starting at position %d and insert=%r the group is placed at position %s instead of %d '
-                     '(an explicit insert=0 - what a tuple axis of a reduction passes - must not be taken for "not given")' % (ndim, n, ii, insert, got, want), node=fi.node)
+                     '(an explicit insert=0 - what a tuple axis of a reduction passes - must not be taken for "not given"; a negative position counts from the end of the remaining '
+                     'dimensions - left as it is, dims[insert:insert+n] never matches and flatten recurses for ever)' % (ndim, n, ii, insert, got, want), node=fi.node)
     elif not bad_ins and nins:
         ctx.holds('R3', 'flatten: insertion point = min(insert if given else position of dims[0], ndim - n) (%d cases)' % nins)
     # a path that hands the array back untouched ignores both the grouping and insert=
@@ -233,6 +240,27 @@ def rule_flatten(ctx):
             ctx.violated('R1', fl, 'label tuples coerced to a common dtype', 'the grouped labels are gathered with np.array(list(zip(...))) without dtype=object: member labels of different kinds '
                          'are converted to NumPy\'s common type, so the grouped entry for (1950, \'b\') is (\'1950\', \'b\') - not the combination of the member-axis labels', node=tab[0].node)
             okm = None
+    # an empty member axis ("axes of different ... lengths") gives no combination at all: np.array([]) of the empty list of tuples is 1-d, and the 2-d reads that follow
+    # (shape[1], .T in MultiAxis._get_values) raise IndexError - the table may only be built from a list known to be non-empty
+    from .c06 import _nonempty_fact
+    evf = run(ctx, fl, mode='fork')
+    unguarded = None
+    ntab = 0
+    for p in ret_paths(evf):
+        for x in T.subterms(p.value):
+            if x[0] == 'call' and T.dotted(x[1]) in ('np.array', 'np.asarray') and x[2] and x[2][0][0] == 'call' and T.dotted(x[2][0][1]) == 'list' \
+                    and any(y[0] == 'call' and T.dotted(y[1]) == 'zip' for y in T.subterms(x[2][0])):
+                L = x[2][0]
+                ntab += 1
+                known = [f for f in (_nonempty_fact(a, pol) for a, pol in p.guards) if f is not None] + [a for a, pol in p.guards if pol is True and a == L]
+                if L not in known and unguarded is None:
+                    unguarded = p
+    if unguarded is not None:
+        ctx.violated('R1', fl, 'label table of an empty group', 'the table of label tuples is built with np.array(list(zip(...))) without testing that there is any combination: with an empty '
+                     'member axis the list is empty, NumPy returns a 1-d array and the following shape[1] read raises IndexError - the labels (and the repr) of '
+                     'a.flatten() are unavailable for an array with an empty axis', node=unguarded.node)
+    elif ntab:
+        ctx.holds('R1', '_flatten: the label table is built from a list known to be non-empty (an empty group gets an explicit (0, k) table)')
     if okm and okr:
         ctx.holds('R1', "_flatten: meshgrid(indexing='ij') + C-order ravel")
     elif okm is False:
